@@ -55,7 +55,7 @@ def run_script(mode, sc, sess=None, seed=0, stray_frames=None, keys=None):
     tl = sc.get('token_len', 20)
     rng = random.Random(seed * 131 + 7)
     dev.auth = simdev.AuthPolicy(mode='auth' if sc['need_auth'] else 'open', maxdata=sc['md'], accept_sig=lambda i, sig, tok: sc['accept_at'] == i + 1,
-                                 pubkey='accept' if sc['pub_accept'] else 'ignore', strays=strays,
+                                 pubkey=sc.get('pub_mode') or ('accept' if sc['pub_accept'] else 'ignore'), strays=strays,
                                  bad_auth_type=(sc['bad_at'] - 1) if sc.get('bad_at') else None,
                                  tokens=[bytes(rng.randrange(256) for _ in range(tl)) for _ in range(8)])
     log = []
@@ -252,6 +252,17 @@ def body(ctx):
                 sc = dict(nkeys=nk, need_auth=True, accept_at=acc, pub_accept=True, bad_at=0, strays=[1, 0, 1], md=4096, cb=True, no_pub=True)
                 tr, o, sess = run_script(mode, sc, seed=ctx.seed + 400 + nk * 10 + acc)
                 sess.close_loop()
+                traces.append(tr)
+                meta.append((mode, [sc]))
+        # after the public key the device challenges again before (or instead of) connecting: only a CNXN is the answer
+        for pm in ('reauth', 'reauth_only'):
+            for md in (4096, 65536):
+                sc = dict(nkeys=2, need_auth=True, accept_at=0, pub_accept=(pm == 'reauth'), pub_mode=pm, bad_at=0, strays=[], md=md, cb=True, auth_timeout=3.0)
+                tr, o, sess = run_script(mode, sc, seed=ctx.seed + 450 + md)
+                ok_ = (o.kind == 'ret' and o.value is True and int(sess.device.max_chunk_size) == min(65536, md // 2)) if pm == 'reauth' else (o.kind == 'exc' and not sess.device.available)
+                sess.close_loop()
+                if not ok_:
+                    ctx.violation('C05.SuccessIffCnxn', dict(kind='handshake', mode=mode, script=sc, outcome=repr(o)[:120], available=bool(sess.device.available)))
                 traces.append(tr)
                 meta.append((mode, [sc]))
         # stray packets in front of the CNXN that follows the public key, with every kind of auth timeout
